@@ -2,6 +2,7 @@ package gen
 
 import (
 	"fmt"
+	"sort"
 
 	"github.com/protobom/protobom/pkg/sbom"
 )
@@ -95,5 +96,52 @@ func WideLists() map[string]*sbom.NodeList {
 	}
 	rich.Nodes[1].Identifiers = map[int32]string{int32(sbom.SoftwareIdentifierType_PURL): "pkg:npm/x@1", int32(sbom.SoftwareIdentifierType_CPE23): "cpe:2.3:a:x:y:1:*:*:*:*:*:*:*"}
 	out["rich"] = rich
+	return out
+}
+
+// ContactChain returns a person whose contacts nest depth levels below it (level 0 is the person itself, every level
+// also has a second, leaf contact so that lists have two elements).
+func ContactChain(depth int) *sbom.Person {
+	top := &sbom.Person{Name: "level-0", Email: "l0@example.com"}
+	cur := top
+	for l := 1; l <= depth; l++ {
+		next := &sbom.Person{Name: fmt.Sprintf("level-%d", l), Email: fmt.Sprintf("l%d@example.com", l)}
+		cur.Contacts = []*sbom.Person{next, {Name: fmt.Sprintf("leaf-%d", l)}}
+		cur = next
+	}
+	return top
+}
+
+// PersonAt walks level steps down the first contacts.
+func PersonAt(p *sbom.Person, level int) *sbom.Person {
+	for l := 0; l < level && p != nil; l++ {
+		if len(p.Contacts) == 0 {
+			return nil
+		}
+		p = p.Contacts[0]
+	}
+	return p
+}
+
+// DepthLadder: nesting depths around the powers of two up to max, and the first few.
+func DepthLadder(max int) []int {
+	seen := map[int]bool{}
+	var out []int
+	add := func(d int) {
+		if d >= 1 && d <= max && !seen[d] {
+			seen[d] = true
+			out = append(out, d)
+		}
+	}
+	for d := 1; d <= 5; d++ {
+		add(d)
+	}
+	for p := 8; p <= max+1; p *= 2 {
+		add(p - 1)
+		add(p)
+		add(p + 1)
+	}
+	add(max)
+	sort.Ints(out)
 	return out
 }
